@@ -48,14 +48,32 @@ func quietLogger() *log.Logger {
 			l.SetFormatter(&logrus.TextFormatter{DisableTimestamp: true, DisableColors: true})
 		}
 	}
-	l.ExitFunc = func(int) { panic(CrashStop{"logger.Fatal"}) }
+	l.AddHook(fatalHook{})
+	l.ExitFunc = func(int) { panic(CrashStop{"logger.Fatal: " + lastFatal}) }
 	return l
+}
+
+// fatalHook remembers the message of the last Fatal entry so that the CrashStop can say what the node died of.
+type fatalHook struct{}
+
+var lastFatal string
+
+func (fatalHook) Levels() []logrus.Level { return []logrus.Level{logrus.FatalLevel, logrus.PanicLevel} }
+func (fatalHook) Fire(e *logrus.Entry) error {
+	lastFatal = e.Message
+	for _, k := range []string{"err", "error"} {
+		if v, ok := e.Data[k]; ok {
+			lastFatal += fmt.Sprintf(" (%v)", v)
+		}
+	}
+	return nil
 }
 
 func init() {
 	log.Global.SetOutput(io.Discard)
 	log.Global.SetLevel(logrus.FatalLevel)
-	log.Global.ExitFunc = func(int) { panic(CrashStop{"log.Global.Fatal"}) }
+	log.Global.AddHook(fatalHook{})
+	log.Global.ExitFunc = func(int) { panic(CrashStop{"log.Global.Fatal: " + lastFatal}) }
 }
 
 // NodeConfig is the per-run drawn configuration of one simulated node.
